@@ -11,13 +11,13 @@ CONSTANTS
   Payloads = {1}
   TypeIds = {301}
   Caps <- CapsOne
-  MaxCookie = 3
+  MaxCookie = 4
   InqBound = 1
-  Kinds = {"CreateObject", "DestroyObject", "CreateService", "AddBusListenerFilter", "RemoveBusListenerFilter", "ClearBusListenerFilters", "StartBusListener", "StopBusListener", "DestroyBusListener"}
-  Faults = {"ends"}
+  Kinds = {"CallFunction", "ClaimChannelEnd", "CreateBusListener", "CreateChannel", "CreateObject", "CreateService", "CreateService2", "DestroyObject", "DestroyService", "StartBusListener", "SubscribeAllEvents", "SubscribeEvent"}
+  Faults = {"ends", "dropped", "sdc", "sdb", "sdi"}
   WrongKinds = {}
-  MsgBudget = 3
-  ScriptSel = "lst"
+  MsgBudget = 2
+  ScriptSel = "svc"
   V0 = 20
   V1 = 20
 VIEW view
